@@ -3,6 +3,7 @@ import XeofsProofs.Lemmas.Whiten
 import XeofsProofs.Lemmas.SpecPow
 import XeofsModel.Generated.Facts
 import XeofsProofs.Lemmas.EeofModel
+import XeofsProofs.Lemmas.MccaModel
 /-!
 # C10 — named methods coincide with the general method at their special parameter values
 -/
@@ -87,5 +88,46 @@ theorem model_embed_entry {α : Type} [Zero α] {n p : ℕ} (X : XM.Mat n p α) 
 theorem model_single_embedding_keeps_everything (n tau : ℕ) :
     Gen.eeofSamplesKept n 1 tau = n ∧ Gen.eeofShift 0 tau = 0 := by
   simp [Gen.eeofSamplesKept, Gen.eeofShift]
+
+/-! ### two-view multi-set CCA and cross-set CCA: on the executable model `XM.mccaC` / `XM.mccaD` (tied by the `mcca` correspondence) -/
+
+/-- the matrix `_C` handed to `eigh` couples DIFFERENT views only: zero inside a view, cross-covariance over the number of views
+across views -/
+theorem model_mcca_C_blocks {n P : ℕ} (X : XM.Mat n P ℝ) (blk : Fin P → ℕ) (nv : ℕ) (a b : Fin P) :
+    (XM.mccaC (ρ := ℝ) X blk nv).toMatrix a b = if blk a = blk b then 0 else XP.MccaM.cov X a b / (nv : ℝ) :=
+  XP.MccaM.mccaC_apply X blk nv a b
+
+/-- the matrix `_D` (no ridge term) keeps each view's OWN covariance block (shifted on the diagonal), over the number of views -/
+theorem model_mcca_D_blocks {n P : ℕ} (X : XM.Mat n P ℝ) (blk : Fin P → ℕ) (nv : ℕ) (shift : ℝ) (a b : Fin P) :
+    (XM.mccaD (ρ := ℝ) X blk nv (fun _ => 0) shift).toMatrix a b
+      = ((if blk a = blk b then XP.MccaM.cov X a b else 0) - (if a = b then shift else 0)) / (nv : ℝ) :=
+  XP.MccaM.mccaD_apply X blk nv shift a b
+
+/-- **two_view_mcca_is_cca, step 1** — an eigen-pair of the model's `(C, D)` satisfies, for every feature `a`, the coupled
+equations of CCA: (cross-covariances with the other views) · weights = λ · (own covariance, shifted) · own weights -/
+theorem model_mcca_coupled_equations {n P : ℕ} (X : XM.Mat n P ℝ) (blk : Fin P → ℕ) (nv : ℕ) (hnv : nv ≠ 0) (shift lam : ℝ)
+    (w : Fin P → ℝ)
+    (h : (XM.mccaC (ρ := ℝ) X blk nv).toMatrix.mulVec w
+          = lam • (XM.mccaD (ρ := ℝ) X blk nv (fun _ => 0) shift).toMatrix.mulVec w) (a : Fin P) :
+    (∑ b, (if blk a = blk b then 0 else XP.MccaM.cov X a b * w b))
+      = lam * ((∑ b, (if blk a = blk b then XP.MccaM.cov X a b * w b else 0)) - shift * w a) :=
+  XP.MccaM.gevp_rows X blk nv hnv shift lam w h a
+
+/-- **two_view_mcca_is_cca, step 2** — for two views the coupled equations make the eigenvalue the canonical correlation: the
+variates `X wx`, `Y wy` have equal variance and correlation `λ` (what `xeofs.cross.CCA` reports as its canonical correlation) -/
+theorem mcca_two_view_eigenvalue_is_canonical_correlation {p q : ℕ} (Sxx : Matrix (Fin p) (Fin p) ℝ)
+    (Syy : Matrix (Fin q) (Fin q) ℝ) (Sxy : Matrix (Fin p) (Fin q) ℝ) (wx : Fin p → ℝ) (wy : Fin q → ℝ) (lam : ℝ) (hl : lam ≠ 0)
+    (h1 : Sxy.mulVec wy = lam • Sxx.mulVec wx) (h2 : Sxyᵀ.mulVec wx = lam • Syy.mulVec wy)
+    (hv : 0 < wx ⬝ᵥ Sxx.mulVec wx) :
+    wy ⬝ᵥ Syy.mulVec wy = wx ⬝ᵥ Sxx.mulVec wx ∧
+    (wx ⬝ᵥ Sxy.mulVec wy) / (Real.sqrt (wx ⬝ᵥ Sxx.mulVec wx) * Real.sqrt (wy ⬝ᵥ Syy.mulVec wy)) = lam :=
+  XP.Mcca2.eigenvalue_is_canonical_correlation Sxx Syy Sxy wx wy lam hl h1 h2 hv
+
+/-- non-vacuity: unit variances, cross-covariance 1/2, unit weights: the hypotheses hold with `λ = 1/2` -/
+example : ((!![(1 / 2 : ℝ)] : Matrix (Fin 1) (Fin 1) ℝ).mulVec ![1] = (1 / 2 : ℝ) • (!![(1 : ℝ)] : Matrix (Fin 1) (Fin 1) ℝ).mulVec ![1])
+    ∧ (0 : ℝ) < ![(1 : ℝ)] ⬝ᵥ (!![(1 : ℝ)] : Matrix (Fin 1) (Fin 1) ℝ).mulVec ![1] := by
+  constructor
+  · ext i; fin_cases i; simp [Matrix.mulVec, dotProduct]
+  · simp [Matrix.mulVec, dotProduct]
 
 end C10
